@@ -3,7 +3,8 @@
   C14.1  a join score is never positive and is 0 for a perfectly contiguous join (R-SIGN: abstract evaluation over the
          sign domain for both sequentialityScore variants; constant folding at referenceDistance = queryDistance = 0)
   C14.2  excessive overlap is inadmissible: -inf iff min(refLen + 2*refDist, qLen + 2*qDist) < 0
-  C14.3  strand-aware query distance (antisymmetric between the strands; shared with C11.2)
+  C14.3  reference and query distance are both current start - previous end, on both strands (reverse-strand query
+         coordinates are mirrored and ascend; shared with C11.2)
   C14.4  the DP cannot return -inf and never takes a segment twice: finite re-initialisation before maximising,
          predecessor recorded only on strict improvement, predecessors range over a proper prefix, own score added
          once, back-tracking until None; empty segments are passed through (complementary predicates)
@@ -30,7 +31,11 @@ def expected_distances(prev="previousSegment", cur="currentSegment"):
     ref_dist = T.p_sub(pos(cur, "start", "reference"), pos(prev, "end", "reference"))
     fwd = T.p_sub(pos(cur, "start", "query"), pos(prev, "end", "query"))
     rev = T.p_sub(pos(prev, "end", "query"), pos(cur, "start", "query"))
-    q_dist = T.mk_select(T.mk_attr(V(cur), "reverse"), rev, fwd)
+    # Reverse-strand query labels are emitted in mirrored, ascending coordinates (C11.1 / C02.5), segments hold their
+    # positions in ascending order and the chainer pre-orders by coordinate sum: along a chain the query coordinate grows
+    # on both strands, so the gap is current start - previous end regardless of the strand.  (`rev` is the negated form
+    # the tree had before fix F5; it is only used to name that defect precisely when it comes back.)
+    q_dist = fwd
     ref_len = T.mk_call("min", [T.p_sub(pos(cur, "end", "reference"), pos(cur, "start", "reference")),
                                 T.p_sub(pos(prev, "end", "reference"), pos(prev, "start", "reference"))])
     q_len = T.mk_call("min", [T.mk_call("abs", [T.p_sub(pos(cur, "end", "query"), pos(cur, "start", "query"))]),
@@ -41,7 +46,7 @@ def expected_distances(prev="previousSegment", cur="currentSegment"):
 def run(ck):
     ck.clause("C14.1", "join score is non-positive and exactly 0 for a contiguous join")
     ck.clause("C14.2", "-inf exactly when a neighbour overlaps by more than half the shorter extent (either axis)")
-    ck.clause("C14.3", "query distance is strand-aware and antisymmetric")
+    ck.clause("C14.3", "reference and query distance = current start - previous end on both strands (mirrored coordinates ascend)")
     ck.clause("C14.4", "DP bookkeeping: finite init, strict improvement, proper prefix, own score once, empty pass-through")
     join_score(ck)
     dp(ck)
@@ -100,13 +105,12 @@ def join_score(ck):
         rd, qd = a.get(names[0]), a.get(names[1])
         ck.judge(rd == ref_dist, "C14.3", short(fn) + ":reference-distance", w,
                  "reference distance = current start - previous end", found=T.show(rd)[:160], required=T.show(ref_dist))
+        strand_dependent = qd is not None and any(x[0] == "attr" and x[2] in ("reverse", "reverseStrand") for x in T.subterms(qd))
         ck.judge(qd == q_dist, "C14.3", short(fn) + ":query-distance", w,
-                 "query distance is current start - previous end on '+', previous end - current start on '-'",
+                 "query distance = current start - previous end on both strands: reverse-strand query coordinates are mirrored "
+                 "and ascend along a chain, a negated distance on '-' turns every gap into an overlap"
+                 + (" (the distance depends on the strand)" if strand_dependent else ""),
                  found=T.show(qd)[:240], required=T.show(q_dist)[:240])
-        if qd is not None and qd[0] == "select":
-            ck.judge(T.p_add(qd[2], qd[3]) == C(0), "C14.3", short(fn) + ":antisymmetric", w,
-                     "the two strand variants of the query distance are negatives of each other",
-                     found=T.show(T.p_add(qd[2], qd[3])), required="0")
         ck.assume("segmentJoinMultiplier >= 0 (O6: args.py does not validate it; a negative multiplier is outside any "
                   "sensible configuration)")
         env = {mult: S.NONNEG}
